@@ -223,6 +223,7 @@ def _is_non_deterministic_op(node: ir.Node) -> bool:
             "RandomUniformLike",
             "RandomNormalLike",
             "Multinomial",
+            "Bernoulli",
         }
     )
     return node.op_type in non_deterministic_ops and _is_onnx_domain(node.domain)
